@@ -438,10 +438,41 @@ pub fn gen_meta_map(d: &mut Dna, depth_left: usize, max_entries: usize) -> Vec<(
 	m
 }
 
+/// Many long strings: `n` entries with keys and values near the 255-byte UBJSON limit, so that the
+/// metadata (and its JSON rendering) crosses 8 KiB / 64 KiB buffer sizes (n = 20 -> ~9 KiB, n = 150 -> ~68 KiB).
+pub fn bulky_metadata(n: usize, seed: u64) -> Vec<(String, Meta)> {
+	(0..n)
+		.map(|i| {
+			let klen = [3usize, 40, 200, 255][(i + seed as usize) % 4];
+			let mut key = format!("{:03}", i);
+			while key.len() < klen {
+				key.push((b'a' + ((key.len() as u64 + seed) % 26) as u8) as char);
+			}
+			let mut val = String::new();
+			let mut k = 0u64;
+			while val.len() < 252 {
+				let c = match (i as u64 + k + seed) % 9 {
+					0 => 'é',
+					1 => 'ポ',
+					2 => '"',
+					_ => (b' ' + ((i as u64 * 7 + k + seed) % 90) as u8) as char,
+				};
+				val.push(c);
+				k += 1;
+			}
+			while val.len() < 255 {
+				val.push('~');
+			}
+			(key, Meta::Str(val))
+		})
+		.collect()
+}
+
 pub fn gen_metadata(d: &mut Dna, cfg: &GenCfg) -> Option<Vec<(String, Meta)>> {
 	match d.u8() {
 		0..=79 => None,
-		80..=249 => Some(gen_meta_map(d, cfg.metadata_depth, 8)),
+		80..=245 => Some(gen_meta_map(d, cfg.metadata_depth, 8)),
+		246..=249 => Some(bulky_metadata([20usize, 40, 150, 300][d.below(4)] + d.below(8), d.u8() as u64)),
 		_ => {
 			// a chain nested up to the format limit
 			let depth = 1 + d.below(126);
@@ -550,7 +581,9 @@ pub fn gen_frames(d: &mut Dna, m: &ModelGame, cfg: &GenCfg) -> Vec<FrameOcc> {
 			match d.u8() {
 				0..=139 => 0,
 				140..=239 => 1 + d.below(cfg.max_items.min(4)),
-				_ => d.below(cfg.max_items + 1),
+				240..=253 => d.below(cfg.max_items + 1),
+				// counts around the 8-bit boundary (a per-frame counter narrower than the data allows)
+				_ => [255usize, 256, 257, 300][d.below(4)],
 			}
 		} else {
 			0
